@@ -89,6 +89,18 @@ impl<'a> Parser<'a> {
 		false
 	}
 
+	/// Same as `try_eat`, but only if there is no trivia between previous token and this one
+	fn try_eat_adjacent(&mut self, t: SyntaxKind) -> bool {
+		if self.offset > 0
+			&& self.at(t)
+			&& self.lexemes[self.offset].range.0 == self.lexemes[self.offset - 1].range.1
+		{
+			self.eat_any();
+			return true;
+		}
+		false
+	}
+
 	fn current_desc(&self) -> String {
 		if self.at_eof() {
 			return "end of file".to_owned();
@@ -519,8 +531,10 @@ fn bind(p: &mut Parser<'_>) -> Result<BindSpec> {
 
 fn visibility(p: &mut Parser<'_>) -> Result<Visibility> {
 	p.eat(T![:])?;
-	if p.try_eat(T![:]) {
-		if p.try_eat(T![:]) {
+	// `::` and `:::` are single tokens in the grammar, colons separated by
+	// whitespace or comments do not form one
+	if p.try_eat_adjacent(T![:]) {
+		if p.try_eat_adjacent(T![:]) {
 			Ok(Visibility::Unhide)
 		} else {
 			Ok(Visibility::Hidden)
